@@ -30,6 +30,7 @@ def check(ctx):
     repo = ctx.repo
     from . import generic as _gen
     _gen.language_traps(ctx, _gen.anchor_functions(repo, "C19"), "the property holds for every input, on every call")
+    _gen.total_functions(ctx, ["dataiter.vector.Vector.dt", "dataiter.vector.Vector.re", "dataiter.vector.Vector.str"])
     for r, t in (("FWD-registry", "proxy attribute == module function of the same name, vector bound at the right parameter, registry complete"),
                  ("SIB-17", "regex twins call re.<own name> identically in both branches"),
                  ("SIB-18", "dt extractor lambda reads the attribute/method of its own name"),
